@@ -21,6 +21,8 @@ RULES = {
     'C01.c': 'listing: state != Deleted && (flag || !starts_with($$)) && pattern(key); result sorted; pattern selector table',
     'C01.d': 'the tombstone sentinel and the absent-key default are the same constant',
     'C01.e': 'increment: stored = add(parse(current or "0"), inc argument)',
+    'C01.f': 'tombstone typestate: on a branch that established that an entry of the shared map is Deleted, the only writes of that '
+             'map are the removal of the entry or an insert that keeps the state Deleted (background code never revives a removed key)',
 }
 
 VALUE_MAP = 'std::collections::HashMap::<std::string::String, nundb::bo::Value>::'
@@ -253,3 +255,47 @@ def run(ck, m):
     zero = any(const_str(r) == '0' for bi, t in ib.calls() for a in t['args'] for r in origins(ib, a))
     ck.ob('C01.e', short(ib.id), 'adds-its-argument', oke and zero, whye + ('; absent default "0"' if zero else '; no "0" default'),
           '%s:%s' % (ib.file, ib.line))
+
+    # ---- (f) tombstone typestate ----------------------------------------------------------
+    ADT = 'nundb::bo::ValueStatus'
+    ex = m.explorer()
+    vfields = [f['name'] for f in P.adts['nundb::bo::Value']['variants'][0]['fields']] if 'nundb::bo::Value' in P.adts else []
+    nsw = 0
+    for b in node_bodies(m):
+        for bi in sorted(b.reachable()):
+            tt = b.term(bi)
+            if tt['k'] != 'switch':
+                continue
+            hit = False
+            for r in origins(b, tt['o']):
+                if r[0] == 'discr' and b.blocks[r[1]]['s'][r[2]]['r']['adt'] == ADT:
+                    hit = True
+            if not hit:
+                continue
+            tm = {P.variant_of_discr(ADT, v): tb for v, tb in tt['targets']}
+            if 'Deleted' not in tm:
+                continue
+            others = {x for k, x in tm.items() if k != 'Deleted'} | {tt['else']}
+            others.discard(tm['Deleted'])
+            reg = {x for x in b.reachable() if b.dominates(tm['Deleted'], x) and not any(b.dominates(o, x) for o in others)}
+            effs, raw = m.effects_from(b, block_filter=reg)
+            writes = [(ev, inf) for ev, kind, inf in effs if kind == 'map-write']
+            if not writes and not any(kind.startswith('map-') for ev, kind, inf in effs):
+                continue      # a switch that only formats / serialises the state
+            nsw += 1
+            bad = []
+            for ev, inf in writes:
+                if inf.get('method') != 'insert':
+                    continue
+                states = set()
+                for v in inf.get('value', ()):
+                    if 'state' in vfields:
+                        for s_ in ex.extend(v, (('f', vfields.index('state'), 'state', 'nundb::bo::Value'),)):
+                            states.add(ex.describe(s_))
+                if not states or any('Deleted' not in s_ for s_ in states):
+                    bad.append((ev.where(), sorted(states)))
+            ck.ob('C01.f', short(b.id), 'deleted-arm-keeps-tombstone', not bad,
+                  'on the Deleted branch the entry is only dropped or kept Deleted' if not bad else
+                  'on the branch where the entry is known to be Deleted, %s stores it with state %s: the removed key is listed again '
+                  'and increment treats the sentinel as a value' % (bad[0][0], bad[0][1]), b.loc(bi))
+    ck.floor('C01.f', nsw, 1, 'state switches with a Deleted branch that touches the shared map')
